@@ -27,7 +27,7 @@ MInit == /\ cfg = [nsrv |-> NS, tries |-> TRIES, timeout |-> 300, maxtimeout |->
          /\ srv = [s \in 1..NS |-> [fails |-> 0, nextRetry |-> 0, m |-> EmptyMetrics, idx |-> s, dying |-> FALSE]]
          /\ fdi = <<>> /\ owedF = [s \in 1..NS |-> 0] /\ owedO = [s \in 1..NS |-> 0]
          /\ q = (QID :> NewQuery)
-         /\ proc = [in |-> FALSE, nonfd |-> FALSE, nrecv |-> 0, inbox |-> <<>>] /\ oos = FALSE
+         /\ proc = [in |-> FALSE, nonfd |-> FALSE, nrecv |-> 0, inbox |-> <<>>, ss |-> 0] /\ oos = FALSE
          /\ ck = 0 /\ ed = 0
 
 Keep == UNCHANGED <<cfg, fdi, owedF, owedO, proc, oos, ed>>
